@@ -433,6 +433,15 @@ def run(ctx):
         # raw-accessor lint inside the safety-aware region (function-local): blocks only reachable through the
         # true edge of a safety test, from which the safe result is reachable
         region = {b for b in safe_region(prog, f) if cfg.can_reach(f, b, bb)}
+        # ... and (after seed C02-7) the blocks that compute the text that is marked safe, wherever they sit: a buffer
+        # assembled on the *other* side of the safety test and marked safe after the branches meet
+        sc = next((k for k in f.calls() if k.bb == bb and k.name == SAFE), None)
+        if sc is not None and sc.args:
+            slice_calls, _ = flow.backward_calls(prog, f, sc.args[0])
+            for k in slice_calls:
+                if k.fn is f:
+                    region.add(k.bb)
+                    region |= {u.bb for u, _ in _uses_of_call_result(f, k) if u is not None}
         derive = lambda k: 0 if (k.name in ("minijinja::value::Value::get_item_by_index", "minijinja::value::Value::get_item",
                                             "core::option::Option::unwrap", "core::result::Result::unwrap")
                                  or k.name.endswith("::clone") or k.name.endswith("Try>::branch")
@@ -461,7 +470,9 @@ def run(ctx):
                     if nxt and all(k is not None and k.name in ESCAPERS for k, _ in nxt):
                         continue
                 tested = False
-                for gg in flow.guard_facts(prog, f, ubb):
+                # the test may sit ahead of the text's computation or ahead of the marking (`let out = ..; if
+                # value.is_safe() { safe(out) }`)
+                for gg in list(flow.guard_facts(prog, f, ubb)) + list(flow.guard_facts(prog, f, bb)):
                     if gg[0] == "call" and gg[1] in IS_SAFE and gg[2] is True:
                         if recv & {lk(o) for o in flow.origins(f, gg[3].args[0], through_calls=derive)}:
                             tested = True
